@@ -68,6 +68,14 @@ Fixpoint assoc (k : N) (l : list (N * Z)) : option Z :=
   | (k', v) :: l' => if N.eqb k k' then Some v else assoc k l'
   end.
 
+Definition text_eqb (a b : text) : bool :=
+  (Nat.eqb (length a) (length b)) && forallb (fun p => N.eqb (fst p) (snd p)) (combine a b).
+Fixpoint lookup {A : Type} (k : text) (env : list (text * A)) : option A :=
+  match env with
+  | [] => None
+  | (k', v) :: env' => if text_eqb k k' then Some v else lookup k env'
+  end.
+
 From Coq Require Import String.
 (* ------------------------------------------------------------------ expressions (pycparser's c_ast shapes) *)
 Inductive expr :=
